@@ -30,10 +30,12 @@ class C19Monitor(Monitor):
         self.stage = {}
         self.concluded_at = {}
         self.exec_ts = {}
+        self.progress = {}
         for name, agent in run.env.game.agents.items():
             if hasattr(agent, "current_kill_chain_stage"):
                 self.stage[name] = agent.current_kill_chain_stage
                 self.exec_ts[name] = getattr(agent, "current_timestep", 0)
+                self.progress[name] = getattr(getattr(agent, "current_stage_progress", None), "name", None)
 
     def after_build(self, run):
         self.new_episode(run)
@@ -120,12 +122,25 @@ class C19Monitor(Monitor):
                 # the agent's own bookkeeping names the step of that previous action (current_timestep before this step)
                 prev_exec, cur_exec = self.exec_ts.get(name), getattr(agent, "current_timestep", None)
                 self.exec_ts[name] = cur_exec
+                prev_progress = self.progress.get(name)
+                self.progress[name] = getattr(getattr(agent, "current_stage_progress", None), "name", None)
                 if old is not None and prev_exec is not None and cur_exec != prev_exec and prev_exec < len(agent.history) - 1:
                     status = agent.history[prev_exec].response.status
                     if status != "success":
                         run.probe("c19_tap_previous_action_unsuccessful")
                         if status != "failure":
                             run.probe("c19_tap_previous_action_unreachable")
+                        # the documented reaction to an unsuccessful action (stage repetition on): the same action is
+                        # tried again. Exempt by design: PROPAGATE; PAYLOAD while the stage is IN_PROGRESS and
+                        # continue_on_failed_exfil is set (TAP001); PLANNING (TAP003)
+                        kc = (s.get("kill_chain") or {})
+                        cont = bool((kc.get("PAYLOAD") or {}).get("continue_on_failed_exfil", True))
+                        exempt = old.name in ("PROPAGATE", "PLANNING", "NOT_STARTED") or old.name in TERMINAL or (old.name == "PAYLOAD" and prev_progress == "IN_PROGRESS" and cont)
+                        if not exempt and s.get("repeat_kill_chain_stages", True) is not False and prev_progress is not None:
+                            before, now = agent.history[prev_exec], agent.history[-1]
+                            run.probe("c19_tap_retry_checked")
+                            if (now.action, jsonable(now.parameters)) != (before.action, jsonable(before.parameters)):
+                                self.bad("unsuccessful-action-not-retried", name, f"the action {before.action} of tick {prev_exec} (stage {old.name}, progress {prev_progress}) came back {status!r}; at the next execution step (tick {tick}) the agent chose {now.action} {jsonable(now.parameters)} instead of trying it again", sig_extra=old.name)
                         # PROPAGATE / PAYLOAD (TAP001) and PLANNING (TAP003) handle an unsuccessful action themselves
                         if old.name not in ("PROPAGATE", "PAYLOAD", "PLANNING", "NOT_STARTED") and old.name not in TERMINAL:
                             if new.name not in TERMINAL and new.name != "NOT_STARTED" and int(new) > int(old):
